@@ -118,4 +118,83 @@ theorem jd_gregorian (y m d : ℤ) (hy : 1 ≤ y) (hm1 : 1 ≤ m) (hm12 : m ≤ 
   rw [julianDayYMD_eq y m d hy hm1, meeusInt_eq_ord y m d hm1 hm12]
   push_cast; norm_num; ring
 
+
+/-- **C15 (2)**: the time of day is added as seconds/86400 -/
+theorem jd_time (y m d t : ℤ) (cal : CalendarKind) :
+    julianDayYMD (α := ℝ) y m d (some t) cal
+      = julianDayYMD (α := ℝ) y m d none cal + (t : ℝ) / 86400 := by
+  unfold julianDayYMD
+  simp only [trig_ofInt, sci_zero]
+  norm_num
+  ring
+
+/-- **C15 (3)**: the Julian-calendar variant differs from the Gregorian one by the
+    historical calendar offset `2 - A + ⌊A/4⌋`, `A` the century of the (Meeus-shifted) year -/
+theorem jd_julian_offset (y m d : ℤ) (hy : 1 ≤ y) (secs : Option ℤ) :
+    julianDayYMD (α := ℝ) y m d secs .julian
+      = julianDayYMD (α := ℝ) y m d secs .gregorian
+        - ((2 - (if m ≤ 2 then y - 1 else y) / 100 + (if m ≤ 2 then y - 1 else y) / 100 / 4 : ℤ) : ℝ) := by
+  have hyn := meeus_year_nonneg (m := m) hy
+  unfold julianDayYMD
+  simp only [trig_ofInt]
+  rw [trunc_div_100 _ hyn, trunc_div_4 _ (Int.ediv_nonneg hyn (by norm_num))]
+  push_cast
+  ring
+
+/-- day ↔ century conversions are mutually inverse -/
+theorem century_inverse (x : ℝ) : julianCenturyToDay (julianDayToCentury x) = x := by
+  unfold julianCenturyToDay julianDayToCentury; norm_num
+theorem century_inverse' (x : ℝ) : julianDayToCentury (julianCenturyToDay x) = x := by
+  unfold julianCenturyToDay julianDayToCentury; norm_num
+
+/-- the integer part of the modified Julian date as the code computes it (Gregorian branch) -/
+def mjdInt (y m d : ℤ) : ℤ :=
+  let year := if m ≤ 2 then y - 1 else y
+  let month := if m ≤ 2 then m + 12 else m
+  365 * year - 679004 + (year / 400 - year / 100 + year / 4) + 306001 * (month + 1) / 10000 + d
+
+theorem mjdInt_eq (y m d : ℤ) : mjdInt y m d = meeusInt y m d - 2401525 := by
+  unfold mjdInt meeusInt
+  have t := meeus_year_term (if m ≤ 2 then y - 1 else y)
+  have h := div_100_div_4 (if m ≤ 2 then y - 1 else y)
+  simp only
+  rw [t, h]
+  ring
+
+
+/-- **C15 (4)**: the modified Julian date is the Julian day minus 2400000.5 at the whole
+    hour, for every datetime after 1582-10-04 (whatever fields `ordToYMD` reports, provided
+    year ≥ 1 and month ≥ 1 — which `date.fromordinal` guarantees). -/
+theorem mjd_eq (w : ℤ)
+    (hy : 1 ≤ (ordToYMD (wallDate w)).1) (hm : 1 ≤ (ordToYMD (wallDate w)).2.1)
+    (hg : 15821004 < 10000 * (ordToYMD (wallDate w)).1 + 100 * (ordToYMD (wallDate w)).2.1
+            + (ordToYMD (wallDate w)).2.2) :
+    julianDayModified (α := ℝ) w
+      = julianDayYMD (α := ℝ) (ordToYMD (wallDate w)).1 (ordToYMD (wallDate w)).2.1
+          (ordToYMD (wallDate w)).2.2 none .gregorian - 2400000.5 + (wallHour w : ℝ) / 24 := by
+  rcases h : ordToYMD (wallDate w) with ⟨y, m, d⟩
+  simp only [h] at hy hm hg
+  rw [julianDayYMD_eq y m d hy hm]
+  unfold julianDayModified
+  simp only [h, trig_ofInt]
+  rw [if_neg (show ¬ (10000 * y + 100 * m + d ≤ 15821004) by omega)]
+  have hmn : (0 : ℤ) ≤ (if m ≤ 2 then m + 12 else m) + 1 := by split <;> omega
+  rw [trunc_30_6001 _ hmn]
+  have := mjdInt_eq y m d
+  unfold mjdInt at this
+  simp only at this
+  have e : (365 * (if m ≤ 2 then y - 1 else y) - 679004 +
+      ((if m ≤ 2 then y - 1 else y) / 400 - (if m ≤ 2 then y - 1 else y) / 100 +
+        (if m ≤ 2 then y - 1 else y) / 4) +
+      306001 * ((if m ≤ 2 then m + 12 else m) + 1) / 10000 + d : ℤ) = meeusInt y m d - 2401525 := this
+  have e' : ((365 * (if m ≤ 2 then y - 1 else y) - 679004 +
+      ((if m ≤ 2 then y - 1 else y) / 400 - (if m ≤ 2 then y - 1 else y) / 100 +
+        (if m ≤ 2 then y - 1 else y) / 4) +
+      306001 * ((if m ≤ 2 then m + 12 else m) + 1) / 10000 + d : ℤ) : ℝ)
+      = ((meeusInt y m d - 2401525 : ℤ) : ℝ) := by rw [e]
+  rw [e']
+  push_cast
+  norm_num
+  ring
+
 end Astral.C15
